@@ -14,6 +14,7 @@ LEAVES = [
 SPECIAL = [
     ty.TypedDictT("TD1", {"a": (ty.Cls(int), True), "b": (ty.Cls(str), False)}),
     ty.TypedDictT("TD2", {"a": (ty.Cls(int), True), "c": (ty.Cls(prelude.A), True)}),
+    ty.TypedDictT("TD3", {"a": (ty.Union(ty.Cls(int), ty.NONE), True), "b": (ty.Union(ty.Cls(str), ty.NONE), False)}),
     ty.NewTypeT("NT", int), ty.NewTypeT("NS", str),
     ty.Cls(list), ty.Cls(tuple), ty.Cls(dict), ty.Cls(prelude.DC),
 ]
